@@ -224,3 +224,26 @@ Proof.
   exists st'. exact A.
 Qed.
 
+(* err_before_ws / warn_before_ws: the character at the start of the buffer *)
+Lemma err_before_ws_boundaries : forall gm text ops ls st0 st,
+  gm_lossless gm -> utf8_wf text = true -> lex text = Some ls ->
+  parser_new gm text ls = Some st0 -> run gm text st0 ops = Some st ->
+  let lo := p_start (b0 st) in
+  let hi := char_end text (p_start (b0 st)) in
+  lo <= hi /\ hi <= length text /\ is_boundary text lo = true /\ is_boundary text hi = true.
+Proof.
+  intros gm text ops ls st0 st G W L N R.
+  destruct (lex_total text) as (ls' & L' & T & _ & K). rewrite L in L'. injection L' as L'; subst ls'.
+  pose proof (lex_boundaries _ _ W L) as B.
+  pose proof (run_good _ _ _ _ _ _ G N R) as Gd.
+  assert (S : SafeInv text st).
+  { destruct (parser_new_good gm text G ls st0 N) as (B0 & I0 & _).
+    eapply (run_safe gm text ls G); [| |exact R].
+    - split; [exists []; exact B0|exact I0].
+    - eapply parser_new_safe; eauto. }
+  destruct Gd as [[c BI] I]. destruct BI as [_ _ Bs _ _ _ _ _ _ _].
+  destruct (sf_pos _ _ S) as [P1 P2].
+  replace (p_start (b0 st)) with (s_pos (sk st)) by lia. cbv zeta.
+  destruct (char_end_boundary text (s_pos (sk st)) W P1 P2) as (A1 & A2 & A3). auto.
+Qed.
+
